@@ -39,6 +39,7 @@ CTXS = [dict(a=44, b=155381, cpb=4310, ex=True),      # FixedChainContext: fee 2
         dict(a=44, b=155381, cpb=20000, ex=False)]    # fee 876277, min change ~4 ADA
 FEES = [2174277, 300000, 0, 876277]
 SMALL_ALPHA = [(c * ADA, t) for c in (1, 2, 5) for t in ((), ((0, 1),), ((0, 2),), ((1, 1),))]
+QUICK_ALPHA = [(ADA, ()), (5 * ADA, ()), (2 * ADA, ((0, 1),)), (ADA, ((0, 2),)), (2 * ADA, ((1, 1),))]
 
 
 def mk_val(coin, toks):
@@ -104,7 +105,7 @@ def rand_stream(rng, alg, n):
     if alg == 'rb':
         return [rng.choice([rng.randrange(0, 12), rng.randrange(-50, 10 ** 6), 0]) for _ in range(n * 8 + 4)]
     mode = rng.random()
-    ln = rng.choice([0, 1, 2, n, n + 2, 2 * n + 6, 3 * n + 8, 3 * n + 8, 3 * n + 8, 4 * n + 10])
+    ln = rng.choice([0, 1, 2, n, n + 2, 2 * n + 6] + [3 * n + 8] * 8 + [4 * n + 10] * 2)
     if mode < 0.25:
         return [0] * ln
     bad = 0.06 if rng.random() < 0.3 else 0.0
@@ -127,13 +128,24 @@ def small_requests(rng, pool, fee):
             (max(base - 900000, 0), [(0, a)] if a else [])]
 
 
+def coverable(pool, coin, toks):
+    c, t = totals(pool)
+    return coin <= c and all(q <= t.get(ASSETS[ai], 0) for ai, q in toks)
+
+
 def small_case(rng, pool=None, req=None, lim='?', fee=None, minchg=None, alg=None):
     if pool is None:
         pool = [mk_val(*rng.choice(SMALL_ALPHA)) for _ in range(rng.choice([0, 1, 2, 2, 3, 3, 3, 4, 4, 4]))]
     ci = rng.choice([0, 1, 1, 2, 2, 3])
     fee = rng.random() < 0.5 if fee is None else fee
     reqs = small_requests(rng, pool, FEES[ci] if fee else 0)
-    coin, toks = rng.choice(reqs) if req is None else reqs[req]
+    if req is None:
+        for _ in range(4):                       # bias towards requests the pool can cover
+            coin, toks = rng.choice(reqs)
+            if coverable(pool, coin + (FEES[ci] if fee else 0), toks) or rng.random() < 0.4:
+                break
+    else:
+        coin, toks = reqs[req]
     alg = alg or rng.choice(['lf', 'ri', 'ri', 'rb'])
     return dict(alg=alg, pool=pool, outs=split_outs(rng, coin, toks),
                 lim=rng.choice([None, 1, 2, 3, 4]) if lim == '?' else lim, fee=fee,
@@ -154,11 +166,13 @@ def large_case(rng):
     fee = rng.random() < 0.5
     coin, tok = totals(pool)
     base = max(coin - (FEES[ci] if fee else 0), 0)
-    rcoin = rng.choice([0, ADA, base // 3, base // 2, base, base + 1, max(base - ADA, 0), rng.randint(0, base + 1)])
+    rcoin = rng.choice([0, ADA, 2 * ADA, base // 5, base // 3, base // 2, base, base + 1, max(base - ADA, 0), rng.randint(0, base + 1)])
     rt = []
     for ai in rng.sample(range(4), rng.randint(0, 4)):
         t = tok.get(ASSETS[ai], 0)
-        rt.append((ai, rng.choice([1, max(t // 2, 1), max(t, 1), t + 1, rng.randint(1, t + 1)])))
+        if t == 0 and rng.random() < 0.8:
+            continue
+        rt.append((ai, rng.choice([1, max(t // 3, 1), max(t // 2, 1), max(t, 1), t + 1, rng.randint(1, t + 1)])))
     alg = rng.choice(['lf', 'ri', 'ri', 'rb'])
     return dict(alg=alg, pool=pool, outs=split_outs(rng, rcoin, rt), lim=rng.choice([None, None, None, 1, 2, 3, 4, 4]), fee=fee,
                 minchg=rng.random() < 0.5, stream=rand_stream(rng, alg, n), ctx=CTXS[ci])
@@ -177,7 +191,7 @@ def exhaustive_small(rng, max_pool, alpha, streams_per_cfg):
                         for minchg in (False, True):
                             cases.append(small_case(rng, pool, req, lim, fee, minchg, 'lf'))
                             for s in range(streams_per_cfg):
-                                cases.append(small_case(rng, pool, req, lim, fee, minchg, 'ri' if s % 3 else 'rb'))
+                                cases.append(small_case(rng, pool, req, lim, fee, minchg, 'rb' if s % 3 == 1 else 'ri'))
     return cases
 
 
@@ -299,7 +313,7 @@ def classify(case, res):
     keys = set(st) | set(rt) | set(ct)
     if cc != sc - rc or any(ct.get(k, 0) != st.get(k, 0) - rt.get(k, 0) for k in keys):
         return f'{alg}-change-wrong'
-    return f'{alg}-other'
+    return f'{alg}-none-of-the-clauses-fails'
 
 
 def nontrivial(case, res):
@@ -318,7 +332,7 @@ def run(ctx, cases, ncorpus=0):
 
 
 def correspond(ctx, sizes=None):
-    n_small, n_large, exh = sizes or ctx.n((2600, 900, None), (30000, 80000, (3, SMALL_ALPHA[:8], 3)))
+    n_small, n_large, exh = sizes or ctx.n((2600, 1200, (2, QUICK_ALPHA, 2)), (30000, 80000, (3, SMALL_ALPHA[:8], 3)))
     cases, ncorpus = gen_cases(ctx, n_small, n_large, exh)
     results, mism, ofail = run(ctx, cases, ncorpus)
     kinds, algs, sizes_h, nsel = {}, {}, {}, {}
